@@ -177,6 +177,20 @@ class Sim:
                 return list(reversed(self.ev(e.args[0])))
             if fn == "len":
                 return len(self.ev(e.args[0]))
+            if fn in ("list", "tuple") and len(e.args) <= 1 and not e.keywords:
+                v = list(self.ev(e.args[0])) if e.args else []
+                return v if fn == "list" else tuple(v)
+            if fn in ("min", "max", "sum") and e.args and not e.keywords:
+                vals = [self.ev(a) for a in e.args]
+                return {"min": min, "max": max, "sum": sum}[fn](vals[0] if len(vals) == 1 else vals)
+            if isinstance(e.func, ast.Attribute) and e.func.attr in ("copy",) and not e.args and isinstance(self.ev(e.func.value), list):
+                return list(self.ev(e.func.value))
+            if isinstance(e.func, ast.Attribute) and e.func.attr in ("pop",) and isinstance(self.ev(e.func.value), list):
+                base = self.ev(e.func.value)
+                return base.pop(*[self.ev(a) for a in e.args])
+            if isinstance(e.func, ast.Attribute) and e.func.attr in ("extend",) and e.args and isinstance(self.ev(e.func.value), list):
+                self.ev(e.func.value).extend(self.ev(e.args[0]))
+                return None
             if fn == "range":
                 return list(range(*[self.ev(a) for a in e.args]))
             if fn in ("enumerate",):
